@@ -236,6 +236,26 @@ pub fn generate(_prop: &str, tier: Tier, seed: u64, run: u64) -> Sc {
                     (m, t)
                 }
             }
+            8 => {
+                // planted: the axioms of the relation (and their converses), under a context
+                let t = wl.pick(&pool).clone();
+                let (x, y) = match wl.below(7) {
+                    0 => (SType::Prim(Prim::Nat), SType::Prim(Prim::Int)),
+                    1 | 2 => (g_service(&mut wl, &k, &base), SType::Prim(Prim::Principal)),
+                    3 => (t, SType::Prim(Prim::Reserved)),
+                    4 => (SType::Prim(Prim::Empty), t),
+                    5 => (SType::Prim(Prim::Null), SType::opt(t)),
+                    _ => (SType::Func { args: vec![], rets: vec![], mode: Mode::Update }, SType::Prim(Prim::Principal)),
+                };
+                let (x, y) = if wl.chance(1, 4) { (y, x) } else { (x, y) };
+                match wl.below(6) {
+                    0 => (SType::vec(x), SType::vec(y)),
+                    1 => (SType::record(vec![(SLabel::Id(3), x)]), SType::record(vec![(SLabel::Id(3), y)])),
+                    2 => (SType::variant(vec![(SLabel::Id(3), x)]), SType::variant(vec![(SLabel::Id(3), y), (SLabel::Id(9), SType::Prim(Prim::Null))])),
+                    3 => (SType::Func { args: vec![], rets: vec![x], mode: Mode::Query }, SType::Func { args: vec![], rets: vec![y], mode: Mode::Query }),
+                    _ => (x, y),
+                }
+            }
             _ => (wl.pick(&pool).clone(), wl.pick(&pool).clone()),
         };
         ops.push(Op::Q { g, entry, a, b });
